@@ -311,7 +311,9 @@ let c10 (payload : string) : string =
       | _ -> failwith "srv") in
     let servers = if srvs = "-" then [] else List.map parse_srv (String.split_on_char ';' srvs) in
     let en = { servers = servers; rr = nat_of_int (int_of_string rr); attempts = [] } in
-    let res = xcall mode (nat_of_int (int_of_string r)) en in
+    let res = if String.length m = 8 && String.sub m 0 6 = "backup"
+      then xcall_backup { b_early = (m.[6] = '1'); b_first_primary = (m.[7] = '1') } en
+      else xcall mode (nat_of_int (int_of_string r)) en in
     let show_o o = (match o with OOk r -> "ok" ^ string_of_int (int_of_nat r) | OSvc -> "svc" | OLost -> "lost" | OCtx -> "ctx" | ODeadline -> "dl") in
     let log = String.concat "," (List.map (fun (s, o) -> Printf.sprintf "s%d:%s" (int_of_nat s) (show_o o)) res.x_env.attempts) in
     let err = (match res.x_err with
